@@ -4,7 +4,7 @@ from . import tlc
 
 LEAVES = {"x": ["v", "x"], "y": ["v", "y"], "sz": ["v", "<state>z"], "pw": ["v", "<p>w"],
           "c0": ["c", 0], "c1": ["c", 1], "c2": ["c", 2], "cm1": ["c", -1], "p": ["v", "p"], "q": ["v", "q"]}
-ARITY = {"sum2": 2, "sum3": 3, "prod2": 2, "prod3": 3, "neg": 1, "pow2": 1, "powc": 1, "quot": 2, "callf": 1, "callfk": 2,
+ARITY = {"sum2": 2, "sum3": 3, "prod2": 2, "prod3": 3, "neg": 1, "pow2": 1, "powc": 1, "quot": 2, "callf": 1, "callfk": 2, "callfkm": 3,
          "callg": 2, "sub": 1, "min2": 2, "max2": 2, "if": 3, "lt": 2, "eq": 2, "ne": 2, "ge": 2, "and2": 2,
          "or2": 2, "not": 1}
 
@@ -34,6 +34,8 @@ def build(toks):
             return ["call", ["v", "<func>f"], [k[0]], []]
         if t == "callfk":
             return ["call", ["v", "<func>f"], [k[0]], [["k", k[1]]]]
+        if t == "callfkm":
+            return ["call", ["v", "<func>f"], [k[0]], [["k", k[1]], ["m", k[2]]]]
         if t == "callg":
             return ["call", ["v", "<func>g"], [k[0], k[1]], []]
         if t == "sub":
@@ -64,9 +66,9 @@ SETS = {
     "full": ALL_LEAVES + list(ARITY),
     "small": ["x", "y", "sz", "c1", "c2", "cm1", "sum2", "prod2", "neg", "pow2", "callf", "callfk", "sub", "if", "lt",
               "and2", "not"],
-    "arith": ALL_LEAVES + ["sum2", "sum3", "prod2", "neg", "pow2", "powc", "quot", "callf", "callfk", "callg", "sub"],
+    "arith": ALL_LEAVES + ["sum2", "sum3", "prod2", "neg", "pow2", "powc", "quot", "callf", "callfk", "callfkm", "callg", "sub"],
     "regroup": ["x", "y", "sum2", "sum3", "prod2", "prod3"],
-    "template": ["p", "q", "x", "c1", "c2", "sum2", "sum3", "prod2", "neg", "callf", "callfk", "callg"],
+    "template": ["p", "q", "x", "c1", "c2", "sum2", "sum3", "prod2", "neg", "callf", "callfk", "callfkm", "callg"],
     "arith-small": ["x", "y", "sz", "c1", "c2", "cm1", "sum2", "sum3", "prod2", "neg", "pow2", "callf", "callfk", "callg"],
 }
 
